@@ -11,8 +11,25 @@ META = {
                  "grammar and its rule-by-rule image; restore_on_err is stated over exec . vm_expr. The models are tied to the code by "
                  "structural differential runs (real pass vs extracted pass on generated ASTs, both feature sets) and the property itself is "
                  "checked on the implementation by running the real VM before and after every real pass on all short inputs",
-    "text": "see coq/props/C05.v: C05_statement (full), theorems proved and the parts named _partial; refuted: C05_lister_refuted (known "
-            "finding, the rewrite is pinned by optimizer::tests::lister), C05_restorer_pop_all_refuted / C05_restorer_map_refuted (fixes/C05-1, C05-2)",
+    "text": "coq/props/C05.v, all closed under the global context. Meaning = Peg.Spec.eval: two grammars have the same meaning when every expression "
+            "(in particular every rule name) has the same definite result (position, stack, token forest, or failure) for every atomicity, emit flag, "
+            "boundary position, stack and valid input, at whatever fuel suffices (`same_meaning`; eval is fuel-monotone and deterministic). PROVED for "
+            "every valid grammar (valid UTF-8 literals, no rule named like a built-in, unique names) and both feature sets: C05_passes - rotate, skip, "
+            "unroll, concatenate, factor each preserve the meaning when applied to every rule as verif_apply_pass does (skip with the rule map it is "
+            "given; rule references inlined through populate_choices, empty and non-string alternatives, the byte-level facts for ^\"a\" ~ ^\"b\" and "
+            "skip_until included), list preserves it wherever it does not fire; C05_pipeline_outside_lister_class - the composition as `optimize` chains "
+            "the passes rule by rule (skipper map = the original rules) preserves the meaning outside the decidable class `lister_class`; "
+            "C05_restorer_fixed - for the code with fixes/C05-1 and C05-2, in restore_on_err(to_optimized G) no alternative (child of ?, of *, side of |) "
+            "can fail and leave a modified stack, for every fuel, state, memchr configuration, run by exec . vm_expr on the restored rules (soundness of "
+            "child_modifies_state as a visited-set reachability analysis + the restore contracts of sequence/look-ahead/RestoreOnErr); "
+            "C05_fixed_outside_lister_class combines them. REFUTED (Coq, by evaluation, and replayed on the implementation in every run): "
+            "C05_lister_refuted / C05_statement_refuted (the lister rewrite; known finding, pinned by optimizer::tests::lister), "
+            "C05_restorer_pop_all_refuted and C05_restorer_map_refuted (the restorer as shipped; repaired by the two fix: commits). Every run ties the "
+            "Gallina passes to the code structurally (real pass vs extracted pass on generated ASTs, each pass alone and in pipeline order, conversion "
+            "with and without restore_on_err, whole optimize, default features and grammar-extras) and checks the property on the implementation: real "
+            "pest_vm before vs after every real pass on all short inputs, Spec before vs after, VM vs Spec on the unroll/restore streams. NOT theorems: "
+            "that `optimize` returns normally on every valid grammar (proved for rotate/factor/unroll with reader-accepted counts only), and the link "
+            "exec . vm_expr = Spec (that is C01); the restorer clause is therefore stated operationally.",
     "note": "Trusted: Coq kernel; extraction (ExtrOcamlBasic only); harness/runner/driver; HashMap<String,_> modelled as last-binding-wins "
             "association list; Rust String = valid UTF-8 byte list; stack overflow of populate_choices on cyclic first alternatives modelled as "
             "abnormal termination (None).",
@@ -28,6 +45,8 @@ C05_2 = ("OptimizedExpr::map_bottom_up / iter_top_down (meta/src/optimizer/mod.r
          "alternatives inside `(..)+` and `#t = (..)` are never wrapped in RestoreOnErr and stack operations under them are not seen",
          "C05_restorer_map_refuted", "fixes/C05-2-optimized-map-rep-once-node-tag.patch")
 WITNESS_CLASS = {"popall": C05_1, "popall-opt": C05_1, "reponce": C05_2, "nodetag": C05_2, "itertag": C05_2}
+# classes under which known_findings.json records the two repairs (status "fixed"): a fixed entry suppresses nothing
+FIXED_CLASS = {"fixes/C05-1-restorer-pop-all.patch": "C05-restorer-pop-all", "fixes/C05-2-optimized-map-rep-once-node-tag.patch": "C05-optimized-traversals"}
 LISTER_DESC = ("class=C05-lister the lister rewrite `(x ~ y)* ~ x` => `x ~ (y ~ x)*` changes the rule: `(\"a\" ~ \"b\")* ~ \"a\"` accepts the prefix `aba` of "
                "`abab` after optimization, the unoptimized rule does not match (Coq: C05_lister_refuted; pinned by optimizer::tests::lister)")
 
@@ -164,6 +183,9 @@ def run(tier, seed, replay=None):
             desc, coqthm, patch = WITNESS_CLASS[cls]
             seen_fix.add((patch, m["label"]))
             found_input = True
+            entry = {f.get("class"): f for f in known_findings("C05")}.get(FIXED_CLASS[patch])
+            if entry and entry.get("status") == "fixed":
+                desc += " [recorded as fixed in known_findings.json (class %s) but the witness reproduces on this tree]" % FIXED_CLASS[patch]
             res.violation("restore_on_err leaves a modified stack for the alternative tried next (features %s): witness `%s`: %s; real parse_and_optimize + Vm: `%s`, "
                           "documented semantics: `%s`. %s" % (m["label"], cls, m["case"], m["impl"].split("|", 1)[1], m["expected"], desc),
                           {"theorem_or_correspondence": "C05 oracle: real VM on optimize(G) vs Peg.Spec on G; Coq: " + coqthm, "mode": "witness", "witness": cls,
